@@ -50,6 +50,10 @@ type Opts struct {
 	// (`common := make([]Option, 0, 8)`, `strict := append(common, MaxExpressions(n))`);
 	// the library has no business writing there.
 	SpareCap bool `json:"spare_cap,omitempty"`
+	// NoGlobalOpt: the call is made without any GlobalStore option (most programs
+	// never use it); the simulation context then travels with the running
+	// client instead of in the global store.
+	NoGlobalOpt bool `json:"no_global_opt,omitempty"`
 	// ReuseOptions: Option values are created once per process and value and
 	// applied to many parsers (an Option "returns the previous setting as an
 	// Option": the values are meant to be kept and re-applied).
@@ -156,26 +160,26 @@ type ErrInfo struct {
 
 // CallResult is everything observable about one Parse call.
 type CallResult struct {
-	Value       string         `json:"value"`
-	ValueNil    bool           `json:"value_nil"`
-	ErrNil      bool           `json:"err_nil"`
-	ErrIsList   bool           `json:"err_is_list"`
-	ErrText     string         `json:"err_text,omitempty"`
-	Errs        []ErrInfo      `json:"errs,omitempty"`
-	Escaped     string         `json:"escaped,omitempty"` // rendering of a panic value that reached the caller
-	EscapedT    string         `json:"escaped_type,omitempty"`
-	ExprCnt     uint64         `json:"expr_cnt"`
-	Steps       int64          `json:"steps"`
-	Aborted     bool           `json:"aborted,omitempty"`      // stopped by the step cap
-	Overflow    bool           `json:"overflow,omitempty"`     // stopped by the event cap
-	Backward    bool           `json:"backward,omitempty"`     // globalStore counter not monotone
-	Nested      int            `json:"nested,omitempty"`       // re-entrant parses made by code blocks
-	StatsDigest string         `json:"stats_digest,omitempty"` // the caller's Stats.ChoiceAltCnt after the parse
+	Value       string    `json:"value"`
+	ValueNil    bool      `json:"value_nil"`
+	ErrNil      bool      `json:"err_nil"`
+	ErrIsList   bool      `json:"err_is_list"`
+	ErrText     string    `json:"err_text,omitempty"`
+	Errs        []ErrInfo `json:"errs,omitempty"`
+	Escaped     string    `json:"escaped,omitempty"` // rendering of a panic value that reached the caller
+	EscapedT    string    `json:"escaped_type,omitempty"`
+	ExprCnt     uint64    `json:"expr_cnt"`
+	Steps       int64     `json:"steps"`
+	Aborted     bool      `json:"aborted,omitempty"`      // stopped by the step cap
+	Overflow    bool      `json:"overflow,omitempty"`     // stopped by the event cap
+	Backward    bool      `json:"backward,omitempty"`     // globalStore counter not monotone
+	Nested      int       `json:"nested,omitempty"`       // re-entrant parses made by code blocks
+	StatsDigest string    `json:"stats_digest,omitempty"` // the caller's Stats.ChoiceAltCnt after the parse
 	// OptsModified: the call wrote into the spare capacity of the option slice it was given.
-	OptsModified bool `json:"opts_modified,omitempty"`
-	Events      []kernel.Event `json:"events,omitempty"`
-	Injected    []InjectedInfo `json:"injected,omitempty"`
-	ctx         *kernel.Ctx
+	OptsModified bool           `json:"opts_modified,omitempty"`
+	Events       []kernel.Event `json:"events,omitempty"`
+	Injected     []InjectedInfo `json:"injected,omitempty"`
+	ctx          *kernel.Ctx
 }
 
 // InjectedInfo is the JSON form of an injected error.
